@@ -24,6 +24,7 @@ static const long CELL = 256, MARGIN = 40, GRID = 3;
 struct PinD {
     int id, shape; unsigned cls; double xo, yo; bool prop; double inside; unsigned dirs;
     double cost; ShapeConnectionPin *pin; bool live;
+    int forceExcl = -1;     // class sharedpin: 0 = setExclusive(false), 1 = setExclusive(true), -1 = random as before
 };
 struct ShapeD { int id; long cx, cy; double x0, y0, x1, y1; ShapeRef *ref; bool live; };
 struct JuncD { int id; long cx, cy; double x, y; bool fixed; JunctionRef *ref; };
@@ -266,6 +267,14 @@ int main(int argc, char **argv) {
     // (a later search of the same connector over visibility edges that persisted)
     bool cpDirsMode = a.mode.find("cpdirs") != std::string::npos;
     if (cpDirsMode && a.n < 0) ncases = (thorough ? 2000 : 300) * a.scale;
+    // class sharedpin: a hub shape carries a pin class (number 7) of 1-2 SHARED (non-exclusive) pins placed off the
+    // shape centre and off the corner lines (generic proportional / absolute offsets, side pins, inside offsets), in a
+    // third of the scenes mixed with an exclusive pin of the same class; 2-4 orthogonal connectors are attached to
+    // that class - with their DESTINATION end in 4 of 5 cases - from pins of other shapes, junctions and free points
+    // lying in other grid cells, so that the later ones have to bend onto the row / column of a pin that already has a
+    // user somewhere in free space; then the usual random connectors and the usual history of moves / resizes / ...
+    bool sharedPinMode = a.mode.find("sharedpin") != std::string::npos;
+    if (sharedPinMode && a.n < 0) ncases = (thorough ? 1200 : 200) * a.scale;
     long from = 0;
     for (int i = 1; i + 1 < argc; ++i) if (std::string(argv[i]) == "--from") from = atol(argv[i + 1]);
     for (long k = from; k < ncases; ++k) {
@@ -274,6 +283,7 @@ int main(int argc, char **argv) {
         Scene sc;
         // ---- configuration
         int rmode = (int) r.range(0, 9);            // 0-5 orthogonal only, 6-7 polyline only, 8-9 both
+        if (sharedPinMode && rmode >= 6 && rmode <= 7) rmode = r.coin(1, 4) ? 8 : 0;
         bool allowOrth = rmode <= 5 || rmode >= 8, allowPoly = rmode >= 6;
         static const double bufs[] = {0, 2, 4, 8};
         double buffer = bufs[r.range(0, 3)];
@@ -333,6 +343,43 @@ int main(int argc, char **argv) {
             sc.shapes.push_back(sd);
             genPinDescs(s, false);
         }
+        const unsigned HUBCLS = 7;
+        if (sharedPinMode) {
+            ShapeD &sd = sc.shapes[0];
+            double w = sd.x1 - sd.x0, h = sd.y1 - sd.y0;
+            int nh = (int) r.range(1, 2);
+            bool mixExcl = r.coin(1, 3);
+            for (int p = 0; p < nh + (mixExcl ? 1 : 0); ++p) {
+                PinD pd; pd.id = pinId++; pd.shape = 0; pd.cls = HUBCLS; pd.live = true; pd.pin = nullptr;
+                pd.prop = r.coin(3, 4);
+                int side = (int) r.range(0, 5);         // 0-1: interior point, 2-5: on the left / right / top / bottom side
+                for (int ax = 0; ax < 2; ++ax) {
+                    double len = ax ? h : w, o;
+                    bool onSide = (ax == 0 && (side == 2 || side == 3)) || (ax == 1 && (side == 4 || side == 5));
+                    bool hi = side == 3 || side == 5;
+                    if (pd.prop) {
+                        static const double gen[] = {0.125, 0.25, 0.375, 0.625, 0.75, 0.875, 0.3125, 0.8125};
+                        o = onSide ? (hi ? 1 : 0) : gen[r.range(0, 7)];
+                    } else {
+                        o = onSide ? (hi ? len : 0) : (double) r.range(1, std::max(1L, (long) len - 1));
+                        if (!onSide && o * 2 == len) o += 1;
+                        if (o > len) o = len;
+                    }
+                    (ax ? pd.yo : pd.xo) = o;
+                }
+                static const double ins[] = {0, 0, 1, 2.5};
+                pd.inside = ins[r.range(0, 3)];
+                int dk = (int) r.range(0, 3);
+                pd.dirs = dk == 0 ? 0u : dk == 1 ? 15u : side == 2 ? (unsigned) ConnDirLeft : side == 3 ? (unsigned) ConnDirRight : side == 4 ? (unsigned) ConnDirUp :
+                          side == 5 ? (unsigned) ConnDirDown : 15u;
+                pd.cost = r.coin(1, 4) ? 10 : 0;
+                pd.forceExcl = p < nh ? 0 : 1;
+                bool dup = false;
+                for (auto &o : sc.pins) if (o.shape == 0 && o.cls == pd.cls && o.dirs == pd.dirs && o.xo == pd.xo && o.yo == pd.yo && o.inside == pd.inside) dup = true;
+                if (dup) { --pinId; continue; }
+                sc.pins.push_back(pd);
+            }
+        }
         // a pin lying on the border line of its shape while the routing buffer is zero: the
         // border is itself a visibility line (own generator class, see report)
         if (buffer == 0) for (auto &p : sc.pins) {
@@ -343,7 +390,7 @@ int main(int argc, char **argv) {
             if (onX || onY) borderPin0 = true;
         }
         if (borderPin0 && allowOrth && !borderMode) buffer = bufs[r.range(1, 3)], borderPin0 = false;
-        const char *tag = (borderPin0 && allowOrth) ? "border0" : cpDirsMode ? (!allowPoly ? "cpdirs-orth" : !allowOrth ? (sparse ? "cpdirs-poly-sparse" : "cpdirs-poly") : "cpdirs-mixed") :
+        const char *tag = (borderPin0 && allowOrth) ? "border0" : sharedPinMode ? "sharedpin" : cpDirsMode ? (!allowPoly ? "cpdirs-orth" : !allowOrth ? (sparse ? "cpdirs-poly-sparse" : "cpdirs-poly") : "cpdirs-mixed") :
                           overcap ? "overcap" : !allowPoly ? "orth" : !allowOrth ? "poly" : "mixed";
         vh::beginCase(k, tag);
         try {
@@ -380,6 +427,7 @@ int main(int argc, char **argv) {
         }
         auto createPin = [&](PinD &pd) {
             int exclSet = (int) r.range(0, 3);       // 0,1: leave default; 2: setExclusive(false); 3: setExclusive(true)
+            if (pd.forceExcl >= 0) exclSet = 2 + pd.forceExcl;
             printf("pin %d %d %u %s %s %d %s %u %s %d\n", pd.id, pd.shape, pd.cls, hx(pd.xo).c_str(), hx(pd.yo).c_str(), (int) pd.prop,
                    hx(pd.inside).c_str(), pd.dirs, hx(pd.cost).c_str(), exclSet <= 1 ? -1 : exclSet - 2);
             fflush(stdout);
@@ -495,7 +543,27 @@ int main(int argc, char **argv) {
             }
             return true;
         };
-        int nconn = (int) r.range(1, 6);
+        if (sharedPinMode) {
+            int nhub = (int) r.range(2, 4);
+            for (int i = 0; i < nhub; ++i) {
+                ConnD c; bool ok = false;
+                int hubEnd = r.coin(4, 5) ? 1 : 0;
+                for (int t = 0; t < 6 && !ok; ++t) {
+                    if (!genConn(c)) continue;
+                    const EndD &o = c.e[1 - hubEnd];
+                    if (o.kind == 'P' && o.obj == 0) continue;
+                    ok = true;
+                }
+                if (!ok) continue;
+                c.e[hubEnd].kind = 'P'; c.e[hubEnd].obj = 0; c.e[hubEnd].cls = HUBCLS;
+                if (allowOrth) c.orth = true;
+                if (c.e[1 - hubEnd].kind == 'J' ? !cpJunctionMode : !r.coin(1, 5)) { c.cps.clear(); c.cpd.clear(); }
+                sc.declConn(c);
+                sc.makeConn(c);
+                sc.conns.push_back(c);
+            }
+        }
+        int nconn = (int) r.range(sharedPinMode ? 0 : 1, sharedPinMode ? 2 : 6);
         for (int i = 0; i < nconn; ++i) {
             ConnD c;
             if (!genConn(c)) continue;
